@@ -457,7 +457,7 @@ fn main() {
             continue;
         }
         let mut v: Value = serde_json::from_str(&line).unwrap();
-        let usage = v["usage"].as_str().unwrap().to_string();
+        let usage = v["usage"].as_str().unwrap_or("").to_string();
         let shname = v["shell"].as_str().unwrap_or("bash").to_string();
         let shell = shell_of(&shname);
         let obs = match mode.as_str() {
